@@ -356,8 +356,10 @@ def run(ctx):
     ok = False
     for lp in (n for n in own_nodes(c.node) if isinstance(n, ast.For)):
         it = lp.iter
-        if not (isinstance(it, ast.Call) and dotted_of(it.func) == "reversed" and it.args and isinstance(it.args[0], ast.Name)
-                and it.args[0].id in c.params and isinstance(lp.target, ast.Name)):
+        base = it.args[0] if isinstance(it, ast.Call) and dotted_of(it.func) == "reversed" and it.args else None
+        if isinstance(base, ast.Subscript) and isinstance(base.slice, ast.Slice) and base.slice.upper is None and base.slice.step is None:
+            base = base.value  # reversed(stack[1:]): the stack without the analysed graph at its bottom
+        if not (isinstance(base, ast.Name) and base.id in c.params and isinstance(lp.target, ast.Name)):
             continue
         g = lp.target.id
         for iff in (n for n in ast.walk(lp) if isinstance(n, ast.If)):
@@ -367,6 +369,33 @@ def run(ctx):
                 if any(isinstance(x, ast.Name) and x.id == g for x in sides) and any(_graph_read(c, x) is not None for x in sides) \
                         and any(isinstance(b, ast.Break) for b in iff.body):
                     ok = True
+    # … and the analysed graph itself (the bottom of the stack) has no entry in the result: the walk must not index the table
+    # with it - it ranges over the stack without its first element, or stops at it, or the entry point gives the root an entry
+    entry_fn = repo.func(f"{IU}:analyze_implicit_usage")
+    root_has_entry = any(isinstance(n, (ast.Assign, ast.AnnAssign)) and isinstance(getattr(n, "value", None), ast.Dict) and n.value.keys for n in own_nodes(entry_fn.node)) or \
+        any(isinstance(n, ast.Assign) and isinstance(n.targets[0], ast.Subscript) and norm(n.targets[0].value) in {norm(t) for a in own_nodes(entry_fn.node) if isinstance(a, (ast.Assign, ast.AnnAssign))
+                                                                                                           for t in ([a.target] if isinstance(a, ast.AnnAssign) else a.targets)}
+            for n in own_nodes(entry_fn.node))
+    safe = root_has_entry
+    for lp in (n for n in own_nodes(c.node) if isinstance(n, ast.For)):
+        it = lp.iter
+        if not (isinstance(it, ast.Call) and dotted_of(it.func) == "reversed" and it.args):
+            continue
+        a0 = it.args[0]
+        stores = [x for x in ast.walk(lp) if isinstance(x, ast.Subscript) and isinstance(lp.target, ast.Name) and norm(x.slice) == lp.target.id]
+        if not stores:
+            continue
+        sliced = isinstance(a0, ast.Subscript) and isinstance(a0.slice, ast.Slice) and isinstance(a0.slice.lower, ast.Constant) and a0.slice.lower.value == 1 \
+            and a0.slice.upper is None and isinstance(a0.value, ast.Name) and a0.value.id in c.params
+        stops = any(isinstance(i_, ast.If) and any(isinstance(b, ast.Break) for b in i_.body) and isinstance(i_.test, ast.Compare) and len(i_.test.ops) == 1
+                    and isinstance(i_.test.ops[0], ast.Is) and any(isinstance(sd, ast.Subscript) and isinstance(sd.slice, ast.Constant) and sd.slice.value == 0
+                                                                 for sd in (i_.test.left, i_.test.comparators[0])) for i_ in ast.walk(lp))
+        safe = safe or sliced or stops
+    ctx.check("R2", "the analysed graph itself is never used as a key of the result", safe, c, c.node,
+              "the walk over the scope stack reaches the graph the analysis was started on - which has no entry in the result - whenever a captured value belongs to none of the graphs "
+              "on the stack (the analysis is run on a nested graph, or an input value belongs to no graph): KeyError instead of the capture sets",
+              how="the loop over reversed(<stack>) excludes the first element (`<stack>[1:]`), stops at `<stack>[0]`, or the entry point creates an entry for the root",
+              construct="result table indexed with the analysed graph")
     ctx.check("R2", "a captured value is charged to every enclosing graph up to (not including) its owner", ok, c, c.node,
               "captures are not propagated through all enclosing subgraphs", how="reverse walk of the stack, break at the owning graph")
     # R3
